@@ -75,8 +75,13 @@ def evaluate(mod, cases, parallel=False, quiet=False):
         obs = [run_impl_safe((mod.__name__, c)) for c in cases]
     t1 = time.time()
     reqs, spans = [], []
-    for c, o in zip(cases, obs):
-        r = mod.requests(c, o)
+    req_errors = {}
+    for ci, (c, o) in enumerate(zip(cases, obs)):
+        try:
+            r = mod.requests(c, o)
+        except Exception as e:  # the observation cannot even be encoded for the model (e.g. NaN where a number must be)
+            req_errors[ci] = f"{type(e).__name__}: {e}"
+            r = []
         for q in r:
             q.setdefault("prop", mod.PROP)
         spans.append((len(reqs), len(reqs) + len(r)))
@@ -84,8 +89,12 @@ def evaluate(mod, cases, parallel=False, quiet=False):
     resps = core.run_driver(reqs)
     t2 = time.time()
     recs = []
-    for c, o, (a, b) in zip(cases, obs, spans):
+    for ci, (c, o, (a, b)) in enumerate(zip(cases, obs, spans)):
         rs = resps[a:b]
+        if ci in req_errors:
+            recs.append(dict(case=c, obs=o, resps=rs, findings=[dict(kind="corr", clause="observation-not-encodable",
+                        detail=f"requests() failed on the implementation's observation: {req_errors[ci]}")]))
+            continue
         try:
             findings = mod.judge(c, o, rs)
         except Exception as e:
